@@ -287,6 +287,17 @@ def St.digestDiff (c : Cfg) (s : St) (r : Rec) (t : Tob) : DDiff :=
     if r.md = .stamp stamp then .same
     else if r.cur = some (digestOf c.algo t b) then .same else .different (digestOf c.algo t b)
 
+/-- the comparison `carry-in` makes, with the requested mode `t`: the digest depends on the mode, so
+    when `t` differs from the recorded mode the file is hashed even if its metadata is unchanged (since
+    the repair of `cmd_carry_in`; before it the metadata short-cut applied here too and the new mode
+    was recorded next to the old digest) -/
+def St.carryDiff (c : Cfg) (s : St) (r : Rec) (t : Tob) : DDiff :=
+  if r.tob = t then s.digestDiff c r t
+  else
+    match s.readThrough r.path with
+    | none => if r.md = .missing then .same else .actualMissing
+    | some (b, _) => if r.cur = some (digestOf c.algo t b) then .same else .different (digestOf c.algo t b)
+
 def St.actualMeta (s : St) (p : Path) : MetaRec :=
   match s.readThrough p with
   | some (_, stamp) => .stamp stamp
@@ -296,7 +307,7 @@ def St.actualMeta (s : St) (p : Path) : MetaRec :=
     the configured default — never the stored one). -/
 def St.carryInRec (c : Cfg) (tob : Option Tob) (force : Bool) (s : St) (p : Path) (e : Ent) (r : Rec) : St × Out :=
   let reqT := tob.getD c.tob
-  let dd := s.digestDiff c r reqT
+  let dd := s.carryDiff c r reqT
   let tobChanged := r.tob ≠ reqT
   let toCarry := force || dd ≠ .same || tobChanged
   let r' : Rec := { r with md := s.actualMeta p, tob := reqT,
